@@ -6,6 +6,7 @@ CONSTANTS
   Prio = FALSE
   Weak_LocalClientPerConnMutex = FALSE
   Weak_SyncWithoutMutex = FALSE
+  Weak_CallbackOutsideMutex = FALSE
 INIT Init
 NEXT Next
 INVARIANTS LocalClientSerialises LocalCallbacks
